@@ -73,6 +73,16 @@ Proof.
     + destruct n; discriminate.
 Qed.
 
+Lemma nth_error_ext' {A} (l l' : list A) : (forall n, nth_error l n = nth_error l' n) -> l = l'.
+Proof.
+  revert l'. induction l as [|x r IH]; intros [|y r'] H.
+  - reflexivity.
+  - specialize (H O). discriminate.
+  - specialize (H O). discriminate.
+  - pose proof (H O) as H0. cbn in H0. injection H0 as ->. f_equal. apply IH.
+    intro n. apply (H (S n)).
+Qed.
+
 Lemma In_aremove {A} (k k' : N) (v : A) m : In (k, v) (aremove k' m) -> In (k, v) m /\ k <> k'.
 Proof.
   induction m as [|[k2 v2] r IH]; cbn; [tauto|].
@@ -374,3 +384,731 @@ Lemma rec_call_id_of m c i : id_of (rec_call m c) i = id_of m i.
 Proof. apply id_of_eq, rec_call_polled. Qed.
 Lemma rec_call_done_idx m c i : done_idx (rec_call m c) i = done_idx m i.
 Proof. unfold done_idx. rewrite rec_call_done. reflexivity. Qed.
+
+(* ------------------------------------------------------------------------------------------ *)
+(* 3. the relation *)
+
+(* which observer lists call i belongs to, by phase (None: either) *)
+Definition ph_polled (p : phase) : option bool :=
+  match p with PNew => Some false | PGone => None | _ => Some true end.
+Definition ph_aband (p : phase) : bool := match p with PGone => true | _ => false end.
+Definition ph_closing (p : phase) : bool := match p with PClosing => true | _ => false end.
+Definition ph_done (p : phase) : bool := match p with PDone => true | _ => false end.
+(* id handed out, request not yet queued *)
+Definition staged (p : phase) : bool := match p with PAcquiring | PAssigned => true | _ => false end.
+
+Record disc (m : mst) (i : nat) (p : phase) : Prop := {
+  d_polled : forall b, ph_polled p = Some b -> mem_nat i (m_polled m) = b;
+  d_aband : mem_nat i (m_abandoned m) = ph_aband p;
+  d_closing : mem_nat i (m_closing m) = ph_closing p;
+  d_done : done_idx m i = ph_done p }.
+
+Record crec_ok (k : crec) (c : call) : Prop := {
+  ck_body : k_body k = c_body c;
+  ck_tid : k_tid k = tc_tid (c_tc c);
+  ck_smp : k_sampled k = tc_sampled (c_tc c);
+  ck_rel : k_rel k = c_rel c;
+  ck_dl : k_created k + k_rel k = c_deadline c }.
+
+(* request `id` with this deadline / trace context / body is the request of the call that owns
+   the id (the observer's view: `call_with_id`) *)
+Definition req_of (m : mst) (id dl : N) (tc : tctx) (body : N) : Prop :=
+  exists i k, call_with_id m id = Some (i, k) /\ k_body k = body /\ k_tid k = tc_tid tc /\
+              k_sampled k = tc_sampled tc /\ k_created k + k_rel k = dl /\ tc_sid tc = id.
+
+(* why the oneshot of `id` may hold outcome `o` *)
+Definition just (m : mst) (id : N) (o : outcome) : Prop :=
+  match o with
+  | OReply v => exists sr tm q, In sr (m_sent m) /\ s_id sr = id /\
+                                In (id, BOk v, tm, q) (m_read m) /\ (s_seq sr < q)%nat
+  | OSrvErr e => exists sr tm q, In sr (m_sent m) /\ s_id sr = id /\
+                                 In (id, BErr e, tm, q) (m_read m) /\ (s_seq sr < q)%nat
+  | ODeadline =>
+    exists sr i k, In sr (m_sent m) /\ s_id sr = id /\ call_with_id m id = Some (i, k) /\
+      (max_timeout_ms < k_rel k \/
+       (s_deadline sr <= m_now m /\
+        forall b tm q, In (id, b, tm, q) (m_read m) -> (s_seq sr < q)%nat -> s_deadline sr <= tm))
+  | _ => True
+  end.
+
+Section Sim.
+  Context {T : Type}.
+  Notation cstate := (@cstate T).
+  Implicit Types (s : cstate) (m : mst).
+
+  (* calls, phases, ids *)
+  Record simC m s : Prop := {
+    sc_now : m_now m = now s;
+    sc_handles : m_handles m = handles s;
+    sc_len : length (m_calls m) = length (calls s);
+    sc_crec : forall i k c, nth_error (m_calls m) i = Some k -> nth_error (calls s) i = Some c ->
+                            crec_ok k c;
+    sc_created : forall i k, nth_error (m_calls m) i = Some k -> k_created k <= m_now m;
+    sc_phase : forall i c, nth_error (calls s) i = Some c -> disc m i (c_phase c);
+    sc_range_p : forall i, In i (m_polled m) -> (i < length (m_calls m))%nat;
+    sc_range_a : forall i, In i (m_abandoned m) -> (i < length (m_calls m))%nat;
+    sc_range_c : forall i, In i (m_closing m) -> (i < length (m_calls m))%nat;
+    sc_range_d : forall i o, In (i, o) (m_done m) -> (i < length (m_calls m))%nat;
+    sc_nodup : NoDup (m_polled m);
+    sc_nowrap : N.of_nat (length (m_polled m)) < two64;
+    sc_next : next_id s = N.of_nat (length (m_polled m));
+    sc_id : forall i c, nth_error (calls s) i = Some c -> In i (m_polled m) ->
+                        id_of m i = Some (c_id c) }.
+
+  (* permit waiters (model only) *)
+  Record winv s : Prop := {
+    w_acq : forall w, In w (waiters s) ->
+                      exists c, nth_error (calls s) w = Some c /\ c_phase c = PAcquiring;
+    w_nodup : NoDup (waiters s) }.
+
+  (* queue, written requests, in flight, timers, oneshots *)
+  Record simD m s : Prop := {
+    sd_queue : forall q, In q (queue s) -> req_of m (q_id q) (q_deadline q) (q_tc q) (q_body q);
+    sd_queue_nodup : NoDup (map q_id (queue s));
+    sd_queue_unsent : forall q sr, In q (queue s) -> In sr (m_sent m) -> s_id sr <> q_id q;
+    sd_staged : forall i c, nth_error (calls s) i = Some c -> staged (c_phase c) = true ->
+                  (forall q, In q (queue s) -> q_id q <> c_id c) /\
+                  (forall sr, In sr (m_sent m) -> s_id sr <> c_id c);
+    sd_sent : forall sr, In sr (m_sent m) ->
+                req_of m (s_id sr) (s_deadline sr) (s_tc sr) (s_body sr);
+    sd_sent_nodup : NoDup (map s_id (m_sent m));
+    sd_sent_seq : forall sr, In sr (m_sent m) -> (s_seq sr <= m_seq m)%nat /\ s_time sr <= m_now m;
+    sd_read_seq : forall id b tm q, In (id, b, tm, q) (m_read m) -> (q <= m_seq m)%nat /\ tm <= m_now m;
+    sd_inflight : forall id e, In (id, e) (inflight s) ->
+                    exists sr, In sr (m_sent m) /\ s_id sr = id /\ s_tc sr = if_tc e /\
+                               s_deadline sr = if_deadline e /\
+                               forall b tm q, In (id, b, tm, q) (m_read m) -> (q <= s_seq sr)%nat;
+    sd_timers : forall id w, In (id, w) (timers s) ->
+                  exists i k, call_with_id m id = Some (i, k) /\
+                              (max_timeout_ms < k_rel k \/ k_created k + k_rel k <= w);
+    sd_slots : forall id o, sl_val (get_slot s id) = Some o -> just m id o }.
+
+  Record sim m s : Prop := { sim_c : simC m s; sim_w : winv s; sim_d : simD m s }.
+
+  (* ---- consequences *)
+  Lemma req_of_bound m id dl tc b :
+    N.of_nat (length (m_polled m)) < two64 -> req_of m id dl tc b -> id < N.of_nat (length (m_polled m)).
+  Proof. intros Hw (i & k & H & _). eapply call_with_id_bound; eassumption. Qed.
+
+  Lemma sim_queue_lt m s q : sim m s -> In q (queue s) -> q_id q < next_id s.
+  Proof.
+    intros [C _ D] H. rewrite (sc_next _ _ C). eapply req_of_bound; [apply C|apply (sd_queue _ _ D), H].
+  Qed.
+
+  Lemma sim_inflight_lt m s id e : sim m s -> In (id, e) (inflight s) -> id < next_id s.
+  Proof.
+    intros [C _ D] H. rewrite (sc_next _ _ C).
+    destruct (sd_inflight _ _ D _ _ H) as (sr & Hin & <- & _).
+    eapply req_of_bound; [apply C|apply (sd_sent _ _ D), Hin].
+  Qed.
+
+  (* request ids of distinct polled calls are distinct *)
+  Lemma sim_ids_unique m s i j ci cj :
+    simC m s -> nth_error (calls s) i = Some ci -> nth_error (calls s) j = Some cj ->
+    In i (m_polled m) -> In j (m_polled m) -> c_id ci = c_id cj -> i = j.
+  Proof.
+    intros C Hi Hj Pi Pj He.
+    pose proof (sc_id _ _ C _ _ Hi Pi) as H1. pose proof (sc_id _ _ C _ _ Hj Pj) as H2.
+    rewrite He in H1. eapply id_of_inj; [apply C|eassumption|eassumption].
+  Qed.
+
+  Lemma sim_owner m s i c k :
+    simC m s -> nth_error (calls s) i = Some c -> In i (m_polled m) ->
+    nth_error (m_calls m) i = Some k -> call_with_id m (c_id c) = Some (i, k).
+  Proof.
+    intros C Hc Hp Hk. apply call_with_id_intro; [apply C| |exact Hk].
+    apply (sc_id _ _ C _ _ Hc Hp).
+  Qed.
+
+  Lemma simC_crec_ex m s i c : simC m s -> nth_error (calls s) i = Some c ->
+    exists k, nth_error (m_calls m) i = Some k /\ crec_ok k c.
+  Proof.
+    intros C Hc. destruct (nth_error (m_calls m) i) as [k|] eqn:E.
+    - exists k. split; [reflexivity|]. eapply sc_crec; eassumption.
+    - exfalso. apply nth_error_None in E. rewrite (sc_len _ _ C) in E.
+      assert (nth_error (calls s) i <> None) by congruence. apply nth_error_Some in H. lia.
+  Qed.
+
+  (* ---- frames: which parts of the model state / observer state each piece reads *)
+  Lemma simC_frame m s s' :
+    simC m s -> now s' = now s -> handles s' = handles s -> calls s' = calls s ->
+    next_id s' = next_id s -> simC m s'.
+  Proof. intros [] E1 E2 E3 E4. constructor; rewrite ?E1, ?E2, ?E3, ?E4; assumption. Qed.
+
+  Lemma winv_frame s s' : winv s -> calls s' = calls s -> waiters s' = waiters s -> winv s'.
+  Proof. intros [] E1 E2. constructor; rewrite ?E1, ?E2; assumption. Qed.
+
+  Lemma simD_frame m s s' :
+    simD m s -> calls s' = calls s -> queue s' = queue s -> inflight s' = inflight s ->
+    timers s' = timers s -> slots s' = slots s -> simD m s'.
+  Proof.
+    intros [] E1 E2 E3 E4 E5. constructor; unfold get_slot; rewrite ?E1, ?E2, ?E3, ?E4, ?E5; assumption.
+  Qed.
+
+  Lemma sim_frame m s s' :
+    sim m s -> now s' = now s -> handles s' = handles s -> calls s' = calls s ->
+    next_id s' = next_id s -> waiters s' = waiters s -> queue s' = queue s ->
+    inflight s' = inflight s -> timers s' = timers s -> slots s' = slots s -> sim m s'.
+  Proof.
+    intros [C W D] **. constructor;
+      [eapply simC_frame|eapply winv_frame|eapply simD_frame]; eassumption.
+  Qed.
+
+  Lemma disc_meq m m' i p :
+    disc m i p -> m_polled m' = m_polled m -> m_abandoned m' = m_abandoned m ->
+    m_closing m' = m_closing m -> m_done m' = m_done m -> disc m' i p.
+  Proof. intros [] E1 E2 E3 E4. constructor; unfold done_idx; rewrite ?E1, ?E2, ?E3, ?E4; assumption. Qed.
+
+  Lemma simC_meq m m' s :
+    simC m s -> m_now m' = m_now m -> m_handles m' = m_handles m -> m_calls m' = m_calls m ->
+    m_polled m' = m_polled m -> m_abandoned m' = m_abandoned m -> m_closing m' = m_closing m ->
+    m_done m' = m_done m -> simC m' s.
+  Proof.
+    intros [] E1 E2 E3 E4 E5 E6 E7.
+    constructor; rewrite ?E1, ?E2, ?E3, ?E4, ?E5, ?E6, ?E7; try assumption.
+    - intros i c Hc. eapply disc_meq; [apply sc_phase0, Hc|assumption..].
+    - intros i c Hc Hp. rewrite (id_of_eq m m' i E4). apply sc_id0; assumption.
+  Qed.
+
+  Lemma req_of_grow m m' id dl tc b :
+    mgrow m m' -> N.of_nat (length (m_polled m')) < two64 -> req_of m id dl tc b -> req_of m' id dl tc b.
+  Proof.
+    intros G Hw (i & k & H & R). exists i, k. split; [eapply call_with_id_grow; eassumption|exact R].
+  Qed.
+
+  Lemma just_mono m m' id o :
+    mgrow m m' -> N.of_nat (length (m_polled m')) < two64 ->
+    (forall x, In x (m_sent m) -> In x (m_sent m')) -> m_read m' = m_read m -> m_now m <= m_now m' ->
+    just m id o -> just m' id o.
+  Proof.
+    intros G Hw Hs Hr Hn. destruct o; cbn [just]; try exact (fun x => x).
+    - intros (sr & tm & q & H1 & H2 & H3 & H4). exists sr, tm, q. rewrite Hr. auto.
+    - intros (sr & tm & q & H1 & H2 & H3 & H4). exists sr, tm, q. rewrite Hr. auto.
+    - intros (sr & i & k & H1 & H2 & H3 & H4). exists sr, i, k. rewrite Hr.
+      split; [auto|]. split; [exact H2|]. split; [eapply call_with_id_grow; eassumption|].
+      destruct H4 as [H4|[H4 H5]]; [left; exact H4|right; split; [lia|exact H5]].
+  Qed.
+
+  (* the observer moves on without a new request / response record *)
+  Lemma simD_mono m m' s :
+    simD m s -> mgrow m m' -> N.of_nat (length (m_polled m')) < two64 ->
+    m_sent m' = m_sent m -> m_read m' = m_read m -> (m_seq m <= m_seq m')%nat ->
+    m_now m <= m_now m' -> simD m' s.
+  Proof.
+    intros [] G Hw Es Er Hq Hn. constructor; rewrite ?Es, ?Er; try assumption.
+    - intros q Hq'. eapply req_of_grow; eauto.
+    - intros sr Hsr. eapply req_of_grow; eauto.
+    - intros sr Hsr. destruct (sd_sent_seq0 sr Hsr). split; lia.
+    - intros id b tm q Hr. destruct (sd_read_seq0 id b tm q Hr). split; lia.
+    - intros id w Hin. destruct (sd_timers0 id w Hin) as (i & k & H1 & H2).
+      exists i, k. split; [eapply call_with_id_grow; eassumption|exact H2].
+    - intros id o Hv. eapply just_mono; try eassumption; [rewrite Es; auto|apply sd_slots0, Hv].
+  Qed.
+
+  Lemma simD_rec_other m s c :
+    simD m s -> N.of_nat (length (m_polled m)) < two64 ->
+    sent_of m c = [] -> read_of m c = [] -> simD (rec_call m c) s.
+  Proof.
+    intros D Hw Es Er. eapply simD_mono; [exact D| | | | | |].
+    - apply mgrow_refl_eq; [apply rec_call_polled|apply rec_call_calls].
+    - rewrite rec_call_polled. exact Hw.
+    - rewrite rec_call_sent, Es, app_nil_r. reflexivity.
+    - rewrite rec_call_read, Er, app_nil_r. reflexivity.
+    - rewrite rec_call_seq. lia.
+    - rewrite rec_call_now. lia.
+  Qed.
+
+  Lemma simC_rec_call m s c : simC m s -> simC (rec_call m c) s.
+  Proof.
+    intro C. eapply simC_meq; [exact C|apply rec_call_now|apply rec_call_handles|apply rec_call_calls|
+      apply rec_call_polled|apply rec_call_abandoned|apply rec_call_closing|apply rec_call_done].
+  Qed.
+
+  Lemma sim_rec_other m s c :
+    sim m s -> sent_of m c = [] -> read_of m c = [] -> sim (rec_call m c) s.
+  Proof.
+    intros [C W D] Es Er. constructor; [apply simC_rec_call, C|exact W|].
+    apply simD_rec_other; [exact D|apply C|exact Es|exact Er].
+  Qed.
+End Sim.
+
+(* ------------------------------------------------------------------------------------------ *)
+(* 4. normal forms of the state functions: everything becomes an `upd_*` of the old state, so
+   that `cbn` computes every projection *)
+Section Normal.
+  Context {T : Type}.
+  Notation cstate := (@cstate T).
+  Implicit Types (s : cstate) (m : mst).
+
+  Definition with_phase (c : call) (p : phase) : call :=
+    {| c_handle := c_handle c; c_phase := p; c_id := c_id c; c_rel := c_rel c;
+       c_deadline := c_deadline c; c_tc := c_tc c; c_body := c_body c |}.
+  Definition phase_calls (l : list call) (i : nat) (p : phase) : list call :=
+    match nth_error l i with Some c => set_nth i (with_phase c p) l | None => l end.
+
+  Lemma upd_calls_same s : upd_calls s (calls s) = s.
+  Proof. destruct s; reflexivity. Qed.
+  Lemma upd_cancels_same s : upd_cancels s (cancels s) = s.
+  Proof. destruct s; reflexivity. Qed.
+  Lemma upd_if_same s : upd_if s (inflight s) (timers s) = s.
+  Proof. destruct s; reflexivity. Qed.
+  Lemma upd_q_same s : upd_q s (permits s) (queue s) (waiters s) (rx_closed s) = s.
+  Proof. destruct s; reflexivity. Qed.
+
+  Lemma set_phase_alt s i p : set_phase s i p = upd_calls s (phase_calls (calls s) i p).
+  Proof.
+    unfold set_phase, phase_calls. destruct (nth_error (calls s) i); [reflexivity|].
+    symmetry; apply upd_calls_same.
+  Qed.
+
+  Lemma phase_calls_length l i p : length (phase_calls l i p) = length l.
+  Proof. unfold phase_calls. destruct (nth_error l i); [apply set_nth_length|reflexivity]. Qed.
+
+  Lemma nth_error_phase_calls l i p j :
+    nth_error (phase_calls l i p) j =
+    if Nat.eqb i j then option_map (fun c => with_phase c p) (nth_error l j) else nth_error l j.
+  Proof.
+    unfold phase_calls. destruct (Nat.eqb i j) eqn:E.
+    - apply Nat.eqb_eq in E. subst j. destruct (nth_error l i) as [c|] eqn:Ec; cbn [option_map].
+      + apply nth_error_set_nth_same. apply nth_error_Some. congruence.
+      + exact Ec.
+    - apply Nat.eqb_neq in E. destruct (nth_error l i); [apply nth_error_set_nth_other, E|reflexivity].
+  Qed.
+
+  Lemma nth_error_phase_calls_inv l i p j c' :
+    nth_error (phase_calls l i p) j = Some c' ->
+    (j = i /\ exists c, nth_error l i = Some c /\ c' = with_phase c p) \/
+    (j <> i /\ nth_error l j = Some c').
+  Proof.
+    rewrite nth_error_phase_calls. destruct (Nat.eqb i j) eqn:E.
+    - apply Nat.eqb_eq in E. subst j. destruct (nth_error l i) as [c|]; cbn; [|discriminate].
+      intros [= <-]. left. split; [reflexivity|]. exists c. split; reflexivity.
+    - apply Nat.eqb_neq in E. intro H. right. split; [congruence|exact H].
+  Qed.
+
+  Lemma phase_calls_same_phase l i c :
+    nth_error l i = Some c -> phase_calls l i (c_phase c) = l.
+  Proof.
+    intro H. apply nth_error_ext'. intro j. rewrite nth_error_phase_calls.
+    destruct (Nat.eqb i j) eqn:E; [|reflexivity]. apply Nat.eqb_eq in E. subst j.
+    rewrite H. cbn. destruct c; reflexivity.
+  Qed.
+
+  (* slots *)
+  Definition send_val (x : slot) (o : outcome) : slot :=
+    if sl_rx_closed x then {| sl_rx_closed := true; sl_val := sl_val x; sl_tx_gone := true |}
+    else {| sl_rx_closed := false; sl_val := Some o; sl_tx_gone := true |}.
+
+  Lemma slot_send_alt s id o : slot_send s id o = set_slot s id (send_val (get_slot s id) o).
+  Proof. unfold slot_send, send_val. destruct (sl_rx_closed (get_slot s id)); reflexivity. Qed.
+
+  Lemma get_set_slot s id x id' :
+    get_slot (set_slot s id x) id' = if N.eqb id' id then x else get_slot s id'.
+  Proof.
+    unfold get_slot, set_slot. cbn [slots upd_slots]. rewrite alookup_aset.
+    destruct (N.eqb id' id); reflexivity.
+  Qed.
+
+  Lemma push_cancel_alt s id :
+    push_cancel s id = upd_cancels s (if dropped s then cancels s else cancels s ++ [id]).
+  Proof. unfold push_cancel. destruct (dropped s); [symmetry; apply upd_cancels_same|reflexivity]. Qed.
+
+  (* the oneshot values are all that the relation reads from the slots *)
+  Definition same_vals s s' : Prop := forall id, sl_val (get_slot s' id) = sl_val (get_slot s id).
+
+  Lemma same_vals_refl s : same_vals s s.
+  Proof. intro; reflexivity. Qed.
+  Lemma same_vals_trans s1 s2 s3 : same_vals s1 s2 -> same_vals s2 s3 -> same_vals s1 s3.
+  Proof. intros H1 H2 id. rewrite H2. apply H1. Qed.
+  Lemma same_vals_slots s s' : slots s' = slots s -> same_vals s s'.
+  Proof. intros E id. unfold get_slot. rewrite E. reflexivity. Qed.
+
+  Lemma same_vals_set s id x : sl_val x = sl_val (get_slot s id) -> same_vals s (set_slot s id x).
+  Proof.
+    intros E id'. rewrite get_set_slot. destruct (N.eqb id' id) eqn:E1; [|reflexivity].
+    apply N.eqb_eq in E1. subst. exact E.
+  Qed.
+  Lemma same_vals_tx_drop s id : same_vals s (slot_tx_drop s id).
+  Proof. apply same_vals_set. reflexivity. Qed.
+  Lemma same_vals_rx_close s id : same_vals s (slot_rx_close s id).
+  Proof. apply same_vals_set. reflexivity. Qed.
+
+  Lemma slot_send_val s id o id' v :
+    sl_val (get_slot (slot_send s id o) id') = Some v ->
+    sl_val (get_slot s id') = Some v \/ (id' = id /\ v = o).
+  Proof.
+    rewrite slot_send_alt, get_set_slot. destruct (N.eqb id' id) eqn:E; [|left; assumption].
+    apply N.eqb_eq in E. subst id'. unfold send_val.
+    destruct (sl_rx_closed (get_slot s id)); cbn [sl_val]; [left; assumption|].
+    intros [= <-]. right. split; reflexivity.
+  Qed.
+End Normal.
+
+Ltac norm_state :=
+  rewrite ?set_phase_alt, ?slot_send_alt, ?push_cancel_alt;
+  unfold slot_tx_drop, slot_rx_close, set_slot;
+  cbn [next_id handles calls q_cap permits queue waiters rx_closed cancels inflight timers slots
+       max_if tr fused terminal finished dropped now plog
+       upd_calls upd_slots upd_cancels upd_if upd_q upd_tr upd_term upd_fin upd_misc].
+
+(* ------------------------------------------------------------------------------------------ *)
+(* 5. preservation, generic steps *)
+Section Steps.
+  Context {T : Type}.
+  Notation cstate := (@cstate T).
+  Implicit Types (s : cstate) (m : mst).
+
+  Definition agree_except m m' (i : nat) : Prop :=
+    forall j, j <> i ->
+      mem_nat j (m_abandoned m') = mem_nat j (m_abandoned m) /\
+      mem_nat j (m_closing m') = mem_nat j (m_closing m) /\
+      done_idx m' j = done_idx m j.
+
+  Lemma agree_except_refl m i : agree_except m m i.
+  Proof. intros j _. repeat split. Qed.
+
+  (* call i moves to phase p'; the observer's abandoned / closing / done lists change at i only *)
+  Lemma simC_phase_step m m' s s' i c p' :
+    simC m s -> nth_error (calls s) i = Some c ->
+    calls s' = phase_calls (calls s) i p' -> now s' = now s -> handles s' = handles s ->
+    next_id s' = next_id s ->
+    m_now m' = m_now m -> m_handles m' = m_handles m -> m_calls m' = m_calls m ->
+    m_polled m' = m_polled m -> agree_except m m' i -> disc m' i p' -> simC m' s'.
+  Proof.
+    intros C Hc Ec En Eh Ei Mn Mh Mc Mp Ag Di.
+    assert (Hi : (i < length (m_calls m))%nat).
+    { rewrite (sc_len _ _ C). apply nth_error_Some. congruence. }
+    constructor; rewrite ?Ec, ?En, ?Eh, ?Ei, ?Mn, ?Mh, ?Mc, ?Mp, ?phase_calls_length; try apply C.
+    - intros j k c' Hk Hc'. apply nth_error_phase_calls_inv in Hc'.
+      destruct Hc' as [[-> (c0 & H0 & ->)]|[_ Hc']]; [|eapply sc_crec; eassumption].
+      pose proof (sc_crec _ _ C _ _ _ Hk H0) as []. constructor; cbn; assumption.
+    - intros j c' Hc'. apply nth_error_phase_calls_inv in Hc'.
+      destruct Hc' as [[-> (c0 & H0 & ->)]|[Hne Hc']]; [exact Di|].
+      pose proof (sc_phase _ _ C _ _ Hc') as []. destruct (Ag j Hne) as (A1 & A2 & A3).
+      constructor; rewrite ?Mp, ?A1, ?A2, ?A3; assumption.
+    - intros j Hj. destruct (Nat.eq_dec j i) as [->|Hne]; [exact Hi|].
+      destruct (Ag j Hne) as (A1 & _). apply mem_nat_In in Hj. rewrite A1 in Hj.
+      apply mem_nat_In in Hj. apply (sc_range_a _ _ C), Hj.
+    - intros j Hj. destruct (Nat.eq_dec j i) as [->|Hne]; [exact Hi|].
+      destruct (Ag j Hne) as (_ & A2 & _). apply mem_nat_In in Hj. rewrite A2 in Hj.
+      apply mem_nat_In in Hj. apply (sc_range_c _ _ C), Hj.
+    - intros j o Hj. destruct (Nat.eq_dec j i) as [->|Hne]; [exact Hi|].
+      destruct (Ag j Hne) as (_ & _ & A3).
+      assert (H : done_idx m' j = true) by (apply done_idx_In; exists o; exact Hj).
+      rewrite A3 in H. apply done_idx_In in H. destruct H as [o' H].
+      apply (sc_range_d _ _ C _ _ H).
+    - intros j c' Hc' Hp. rewrite (id_of_eq m m' j Mp). apply nth_error_phase_calls_inv in Hc'.
+      destruct Hc' as [[-> (c0 & H0 & ->)]|[Hne Hc']]; [|apply (sc_id _ _ C _ _ Hc' Hp)].
+      cbn [c_id with_phase]. apply (sc_id _ _ C _ _ H0 Hp).
+  Qed.
+
+  (* ... with the observer unchanged: only between phases with the same discipline *)
+  Lemma simC_phase_same m s s' i c p' :
+    simC m s -> nth_error (calls s) i = Some c ->
+    calls s' = phase_calls (calls s) i p' -> now s' = now s -> handles s' = handles s ->
+    next_id s' = next_id s ->
+    ph_polled p' = ph_polled (c_phase c) -> ph_aband p' = ph_aband (c_phase c) ->
+    ph_closing p' = ph_closing (c_phase c) -> ph_done p' = ph_done (c_phase c) -> simC m s'.
+  Proof.
+    intros C Hc Ec En Eh Ei P1 P2 P3 P4.
+    eapply simC_phase_step; try eassumption; try reflexivity; [apply agree_except_refl|].
+    pose proof (sc_phase _ _ C _ _ Hc) as []. constructor; rewrite ?P1, ?P2, ?P3, ?P4; assumption.
+  Qed.
+
+  Lemma simC_phase_none m s s' i p' :
+    simC m s -> nth_error (calls s) i = None ->
+    calls s' = phase_calls (calls s) i p' -> now s' = now s -> handles s' = handles s ->
+    next_id s' = next_id s -> simC m s'.
+  Proof.
+    intros C Hc Ec En Eh Ei. eapply simC_frame; try eassumption.
+    rewrite Ec. unfold phase_calls. rewrite Hc. reflexivity.
+  Qed.
+
+  Lemma simD_phase_step m s s' i p' :
+    simD m s -> calls s' = phase_calls (calls s) i p' ->
+    (forall c, nth_error (calls s) i = Some c -> staged p' = true -> staged (c_phase c) = true) ->
+    queue s' = queue s -> inflight s' = inflight s -> timers s' = timers s -> same_vals s s' ->
+    simD m s'.
+  Proof.
+    intros D Ec Hst Eq Ef Et Ev. constructor; rewrite ?Eq, ?Ef, ?Et; try apply D.
+    - rewrite Ec. intros j c' Hc' Hs. apply nth_error_phase_calls_inv in Hc'.
+      destruct Hc' as [[-> (c0 & H0 & ->)]|[Hne Hc']]; [|apply (sd_staged _ _ D _ _ Hc' Hs)].
+      cbn [c_phase c_id with_phase] in *. apply (sd_staged _ _ D _ _ H0). apply Hst; assumption.
+    - intros id o. rewrite Ev. apply D.
+  Qed.
+
+  Lemma simD_slots_gen m s s' :
+    simD m s -> calls s' = calls s -> queue s' = queue s -> inflight s' = inflight s ->
+    timers s' = timers s ->
+    (forall id v, sl_val (get_slot s' id) = Some v -> sl_val (get_slot s id) = Some v \/ just m id v) ->
+    simD m s'.
+  Proof.
+    intros D Ec Eq Ef Et Ev. constructor; rewrite ?Ec, ?Eq, ?Ef, ?Et; try apply D.
+    intros id o Hv. destruct (Ev id o Hv) as [H|H]; [apply D, H|exact H].
+  Qed.
+
+  Lemma simD_vals m s s' :
+    simD m s -> calls s' = calls s -> queue s' = queue s -> inflight s' = inflight s ->
+    timers s' = timers s -> same_vals s s' -> simD m s'.
+  Proof.
+    intros D Ec Eq Ef Et Ev. eapply simD_slots_gen; try eassumption.
+    intros id v Hv. left. rewrite <- Ev. exact Hv.
+  Qed.
+
+  (* a oneshot receives a justified value *)
+  Lemma simD_slot_send m s id o : simD m s -> just m id o -> simD m (slot_send s id o).
+  Proof.
+    intros D J. eapply simD_slots_gen; [exact D|rewrite slot_send_alt; reflexivity..|].
+    intros id' v Hv. apply slot_send_val in Hv. destruct Hv as [Hv|[-> ->]]; [left; exact Hv|right; exact J].
+  Qed.
+
+  Lemma winv_phase_other s s' i p' :
+    winv s -> calls s' = phase_calls (calls s) i p' -> waiters s' = waiters s ->
+    ~ In i (waiters s) -> winv s'.
+  Proof.
+    intros [A N] Ec Ew Hni. constructor; rewrite Ew; [|exact N].
+    intros w Hw. destruct (A w Hw) as (c & Hc & Hp). exists c. split; [|exact Hp].
+    rewrite Ec, nth_error_phase_calls. destruct (Nat.eqb i w) eqn:E; [|exact Hc].
+    apply Nat.eqb_eq in E. subst. contradiction.
+  Qed.
+
+  Lemma winv_not_acq s i c : winv s -> nth_error (calls s) i = Some c -> c_phase c <> PAcquiring ->
+    ~ In i (waiters s).
+  Proof. intros [A _] Hc Hp Hin. destruct (A i Hin) as (c' & Hc' & Hp'). congruence. Qed.
+End Steps.
+
+Lemma NoDup_app_single {A} (l : list A) (x : A) : NoDup l -> ~ In x l -> NoDup (l ++ [x]).
+Proof.
+  intros H Hn. induction l as [|y r IH]; cbn; [constructor; [tauto|constructor]|].
+  inversion H as [|? ? Hy Hr]; subst. constructor.
+  - intro Hin. apply in_app_or in Hin. destruct Hin as [Hin|[<-|[]]]; [tauto|apply Hn; left; reflexivity].
+  - apply IH; [exact Hr|]. intro; apply Hn; right; assumption.
+Qed.
+
+Section Blocks.
+  Context {T : Type}.
+  Notation cstate := (@cstate T).
+  Implicit Types (s : cstate) (m : mst).
+
+  (* same model state as far as the relation reads it, except for `calls`, `waiters`, `queue` *)
+  Record sbc s s' : Prop := {
+    sbc_now : now s' = now s; sbc_handles : handles s' = handles s;
+    sbc_next : next_id s' = next_id s;
+    sbc_inflight : inflight s' = inflight s; sbc_timers : timers s' = timers s;
+    sbc_vals : same_vals s s' }.
+
+  Lemma sbc_refl s : sbc s s.
+  Proof. constructor; try reflexivity. apply same_vals_refl. Qed.
+  Lemma sbc_trans s1 s2 s3 : sbc s1 s2 -> sbc s2 s3 -> sbc s1 s3.
+  Proof.
+    intros [] []. constructor; try congruence; try (eapply same_vals_trans; eassumption).
+  Qed.
+  Lemma sbc_set_phase s x i p : sbc s x -> sbc s (set_phase x i p).
+  Proof. intros []. rewrite set_phase_alt. constructor; try assumption. Qed.
+  Lemma sbc_upd_calls s x v : sbc s x -> sbc s (upd_calls x v).
+  Proof. intros []. constructor; assumption. Qed.
+  Lemma sbc_upd_cancels s x v : sbc s x -> sbc s (upd_cancels x v).
+  Proof. intros []. constructor; assumption. Qed.
+  Lemma sbc_push_cancel s x id : sbc s x -> sbc s (push_cancel x id).
+  Proof. intros H. rewrite push_cancel_alt. apply sbc_upd_cancels, H. Qed.
+  Lemma sbc_upd_q s x p q w c : sbc s x -> sbc s (upd_q x p q w c).
+  Proof. intros []. constructor; assumption. Qed.
+  Lemma sbc_upd_tr s x t f l : sbc s x -> sbc s (upd_tr x t f l).
+  Proof. intros []. constructor; assumption. Qed.
+  Lemma sbc_upd_fin s x f d : sbc s x -> sbc s (upd_fin x f d).
+  Proof. intros []. constructor; assumption. Qed.
+  Lemma sbc_upd_term s x t : sbc s x -> sbc s (upd_term x t).
+  Proof. intros []. constructor; assumption. Qed.
+  Lemma sbc_tx_drop s x id : sbc s x -> sbc s (slot_tx_drop x id).
+  Proof.
+    intros []. constructor; try assumption.
+    eapply same_vals_trans; [eassumption|apply same_vals_tx_drop].
+  Qed.
+  Lemma sbc_rx_close s x id : sbc s x -> sbc s (slot_rx_close x id).
+  Proof.
+    intros []. constructor; try assumption.
+    eapply same_vals_trans; [eassumption|apply same_vals_rx_close].
+  Qed.
+
+  (* G1 *)
+  Lemma sim_sbc m s s' :
+    sim m s -> sbc s s' -> calls s' = calls s -> waiters s' = waiters s -> queue s' = queue s ->
+    sim m s'.
+  Proof.
+    intros [C W D] [] Ec Ew Eq. constructor.
+    - eapply simC_frame; eassumption.
+    - eapply winv_frame; eassumption.
+    - eapply simD_vals; eassumption.
+  Qed.
+
+  Definition active (p : phase) : bool :=
+    match p with PAcquiring | PAssigned | PAcqClosed | PAwaiting => true | _ => false end.
+
+  (* G2: an active call moves to another active phase; nothing observable *)
+  Lemma sim_active_step m s s' i c p' :
+    sim m s -> nth_error (calls s) i = Some c -> active (c_phase c) = true -> active p' = true ->
+    (staged p' = true -> staged (c_phase c) = true) ->
+    calls s' = phase_calls (calls s) i p' -> sbc s s' -> queue s' = queue s ->
+    (forall w, In w (waiters s') -> In w (waiters s) /\ (w = i -> p' = PAcquiring)) ->
+    NoDup (waiters s') -> sim m s'.
+  Proof.
+    intros [C W D] Hc Ha Ha' Hst Ec [] Eq Hw Hnd. constructor.
+    - eapply simC_phase_same; try eassumption;
+        destruct (c_phase c); try discriminate; destruct p'; try discriminate; reflexivity.
+    - constructor; [|exact Hnd]. intros w Hin. destruct (Hw w Hin) as [Hin0 Hp].
+      destruct (w_acq _ W w Hin0) as (c0 & Hc0 & Hp0). rewrite Ec, nth_error_phase_calls.
+      destruct (Nat.eqb i w) eqn:E.
+      + apply Nat.eqb_eq in E. subst w. rewrite Hc0. cbn. eexists. split; [reflexivity|].
+        cbn. apply Hp. reflexivity.
+      + exists c0. split; assumption.
+    - eapply simD_phase_step; try eassumption. intros c0 Hc0. rewrite Hc in Hc0.
+      injection Hc0 as <-. exact Hst.
+  Qed.
+
+  (* the observer fields that do not record call life-cycle events *)
+  Record mcore m m' : Prop := {
+    mc_now : m_now m' = m_now m; mc_handles : m_handles m' = m_handles m;
+    mc_calls : m_calls m' = m_calls m; mc_sent : m_sent m' = m_sent m;
+    mc_read : m_read m' = m_read m; mc_seq : m_seq m' = m_seq m }.
+
+  Lemma simD_mcore m m' s :
+    simD m s -> mcore m m' -> m_polled m' = m_polled m -> N.of_nat (length (m_polled m)) < two64 ->
+    simD m' s.
+  Proof.
+    intros D [] Ep Hw. eapply simD_mono; try eassumption; try lia.
+    - apply mgrow_refl_eq; assumption.
+    - rewrite Ep. exact Hw.
+  Qed.
+
+  (* an observable life-cycle step of call i (drop, guard close / cancel, completion) *)
+  Lemma sim_phase_obs m m' s s' i c p' :
+    sim m s -> nth_error (calls s) i = Some c -> staged p' = false ->
+    calls s' = phase_calls (calls s) i p' -> sbc s s' -> queue s' = queue s ->
+    (forall w, In w (waiters s') -> In w (waiters s) /\ w <> i) -> NoDup (waiters s') ->
+    mcore m m' -> m_polled m' = m_polled m -> agree_except m m' i -> disc m' i p' -> sim m' s'.
+  Proof.
+    intros [C W D] Hc Hst Ec B Eq Hw Hnd M Ep Ag Di. constructor.
+    - destruct B, M. eapply simC_phase_step; eassumption.
+    - constructor; [|exact Hnd]. intros w Hin. destruct (Hw w Hin) as [Hin0 Hne].
+      destruct (w_acq _ W w Hin0) as (c0 & Hc0 & Hp0). exists c0. split; [|exact Hp0].
+      rewrite Ec, nth_error_phase_calls. destruct (Nat.eqb i w) eqn:E; [|exact Hc0].
+      apply Nat.eqb_eq in E. congruence.
+    - destruct B. eapply simD_phase_step; try eassumption.
+      + eapply simD_mcore; try eassumption. apply C.
+      + intros c0 _ H. congruence.
+  Qed.
+
+  (* G4: an assigned permit is used: the request is queued *)
+  Lemma sim_enqueue m s s' i c :
+    sim m s -> nth_error (calls s) i = Some c -> c_phase c = PAssigned ->
+    calls s' = phase_calls (calls s) i PAwaiting -> sbc s s' -> waiters s' = waiters s ->
+    queue s' = queue s ++ [{| q_id := c_id c; q_deadline := c_deadline c;
+                             q_tc := {| tc_tid := tc_tid (c_tc c); tc_sid := c_id c;
+                                        tc_sampled := tc_sampled (c_tc c) |};
+                             q_body := c_body c |}] ->
+    sim m s'.
+  Proof.
+    intros [C W D] Hc Hp Ec B Ew Eq.
+    assert (Hpol : In i (m_polled m)).
+    { apply mem_nat_In. apply (d_polled _ _ _ (sc_phase _ _ C _ _ Hc)). rewrite Hp. reflexivity. }
+    destruct (sd_staged _ _ D _ _ Hc) as [Hq Hs]; [rewrite Hp; reflexivity|].
+    constructor.
+    - destruct B. eapply simC_phase_same; try eassumption; rewrite Hp; reflexivity.
+    - eapply winv_phase_other; try eassumption. eapply winv_not_acq; try eassumption. congruence.
+    - destruct B. constructor; rewrite ?Eq, ?sbc_inflight0, ?sbc_timers0; try apply D.
+      + intros q Hin. apply in_app_or in Hin. destruct Hin as [Hin|[<-|[]]]; [apply D, Hin|].
+        cbn [q_id q_deadline q_tc q_body].
+        destruct (simC_crec_ex _ _ _ _ C Hc) as (k & Hk & []).
+        exists i, k. cbn. repeat split; try assumption. eapply sim_owner; eassumption.
+      + rewrite map_app. cbn [map q_id]. apply NoDup_app_single; [apply D|].
+        intro Hin. apply in_map_iff in Hin. destruct Hin as (q & He & Hin). apply (Hq q Hin He).
+      + intros q sr Hin Hsr. apply in_app_or in Hin.
+        destruct Hin as [Hin|[<-|[]]]; [eapply sd_queue_unsent; eassumption|]. cbn. apply Hs, Hsr.
+      + rewrite Ec. intros j cj Hcj Hst. apply nth_error_phase_calls_inv in Hcj.
+        destruct Hcj as [[-> (c0 & H0 & ->)]|[Hne Hcj]]; [discriminate|].
+        destruct (sd_staged _ _ D _ _ Hcj Hst) as [Hq' Hs']. split; [|exact Hs'].
+        intros q Hin. apply in_app_or in Hin. destruct Hin as [Hin|[<-|[]]]; [apply Hq', Hin|].
+        cbn. intro He. apply Hne. symmetry.
+        eapply (sim_ids_unique _ _ i j c cj C); try eassumption.
+        apply mem_nat_In. apply (d_polled _ _ _ (sc_phase _ _ C _ _ Hcj)).
+        destruct (c_phase cj); try discriminate; reflexivity.
+      + intros id o. rewrite sbc_vals0. apply D.
+  Qed.
+
+  Definition with_id_phase (c : call) (id : N) (p : phase) : call :=
+    {| c_handle := c_handle c; c_phase := p; c_id := id; c_rel := c_rel c;
+       c_deadline := c_deadline c; c_tc := c_tc c; c_body := c_body c |}.
+
+  (* G5: the first poll of call i: the observer appends i to m_polled, the model hands out
+     next_id; p' is the (active) phase the call is left in *)
+  Lemma sim_first_poll m m' s s' i c p' :
+    sim m s -> nth_error (calls s) i = Some c -> c_phase c = PNew -> active p' = true ->
+    N.of_nat (S (length (m_polled m))) < two64 ->
+    calls s' = set_nth i (with_id_phase c (next_id s) p') (calls s) ->
+    next_id s' = N.modulo (next_id s + 1) 18446744073709551616 ->
+    now s' = now s -> handles s' = handles s -> queue s' = queue s -> inflight s' = inflight s ->
+    timers s' = timers s -> waiters s' = waiters s ->
+    (forall id v, sl_val (get_slot s' id) = Some v -> sl_val (get_slot s id) = Some v) ->
+    mcore m m' -> m_polled m' = m_polled m ++ [i] -> m_abandoned m' = m_abandoned m ->
+    m_closing m' = m_closing m -> m_done m' = m_done m -> sim m' s'.
+  Proof.
+    intros [C W D] Hc Hp Ha Hw Ec En Eno Eh Eq Ef Et Ew Ev [] Mp Ma Mcl Md.
+    pose proof (sc_phase _ _ C _ _ Hc) as Di. rewrite Hp in Di. destruct Di as [Dp Dab Dcl Ddn].
+    specialize (Dp false eq_refl). cbn in Dab, Dcl, Ddn.
+    assert (Hi : (i < length (calls s))%nat) by (apply nth_error_Some; congruence).
+    assert (Hnp : ~ In i (m_polled m)) by (apply mem_nat_false; exact Dp).
+    assert (Hw0 : N.of_nat (length (m_polled m)) < two64) by apply C.
+    assert (Hw' : N.of_nat (length (m_polled m')) < two64).
+    { rewrite Mp, app_length. cbn [length]. rewrite Nat.add_1_r. exact Hw. }
+    assert (G : mgrow m m').
+    { split; [exists [i]; exact Mp|exists []; rewrite app_nil_r; exact mc_calls0]. }
+    assert (Hmem : forall j, j <> i -> mem_nat j (m_polled m') = mem_nat j (m_polled m)).
+    { intros j Hne. rewrite Mp, mem_nat_app, mem_nat_single.
+      destruct (Nat.eqb j i) eqn:E; [apply Nat.eqb_eq in E; contradiction|apply orb_false_r]. }
+    constructor.
+    - constructor; rewrite ?Ec, ?En, ?Eno, ?Eh, ?mc_now0, ?mc_handles0, ?mc_calls0, ?Ma, ?Mcl, ?Md,
+        ?set_nth_length; try apply C.
+      + intros j k c' Hk Hc'. destruct (Nat.eq_dec i j) as [<-|Hne].
+        * rewrite nth_error_set_nth_same in Hc' by exact Hi. injection Hc' as <-.
+          pose proof (sc_crec _ _ C _ _ _ Hk Hc) as []. constructor; cbn; assumption.
+        * rewrite nth_error_set_nth_other in Hc' by exact Hne. eapply sc_crec; eassumption.
+      + intros j c' Hc'. destruct (Nat.eq_dec i j) as [<-|Hne].
+        * rewrite nth_error_set_nth_same in Hc' by exact Hi. injection Hc' as <-. cbn [c_phase with_id_phase].
+          constructor; unfold done_idx; rewrite ?Ma, ?Mcl, ?Md.
+          -- intros b Hb. rewrite Mp, mem_nat_app, mem_nat_single, Nat.eqb_refl, orb_true_r.
+             destruct p'; try discriminate; cbn in Hb; congruence.
+          -- rewrite Dab. destruct p'; try discriminate; reflexivity.
+          -- rewrite Dcl. destruct p'; try discriminate; reflexivity.
+          -- unfold done_idx in Ddn. rewrite Ddn. destruct p'; try discriminate; reflexivity.
+        * rewrite nth_error_set_nth_other in Hc' by exact Hne.
+          pose proof (sc_phase _ _ C _ _ Hc') as [].
+          constructor; unfold done_idx; rewrite ?Ma, ?Mcl, ?Md; try assumption.
+          rewrite Hmem by congruence. assumption.
+      + intros j Hj. rewrite Mp in Hj. apply in_app_or in Hj.
+        destruct Hj as [Hj|[<-|[]]]; [apply C, Hj|]. rewrite (sc_len _ _ C). exact Hi.
+      + rewrite Mp. apply NoDup_app_single; [apply C|exact Hnp].
+      + exact Hw'.
+      + rewrite (sc_next _ _ C), Mp, app_length. cbn [length].
+        rewrite N.mod_small by (unfold two64 in Hw; lia). lia.
+      + intros j c' Hc' Hj. destruct (Nat.eq_dec i j) as [<-|Hne].
+        * rewrite nth_error_set_nth_same in Hc' by exact Hi. injection Hc' as <-. cbn [c_id with_id_phase].
+          apply id_of_some; [exact Hw'|]. rewrite Mp, index_of_app, (index_of_notin _ _ _ Hnp).
+          cbn [index_of]. rewrite Nat.eqb_refl, (sc_next _ _ C). f_equal.
+        * rewrite nth_error_set_nth_other in Hc' by exact Hne.
+          rewrite Mp in Hj. apply in_app_or in Hj. destruct Hj as [Hj|[Hj|[]]]; [|congruence].
+          eapply id_of_grow; [exact G|exact Hw'|]. apply (sc_id _ _ C _ _ Hc' Hj).
+    - constructor; rewrite Ew; [|apply W]. intros w Hin.
+      destruct (w_acq _ W w Hin) as (c0 & Hc0 & Hp0). exists c0. split; [|exact Hp0].
+      rewrite Ec, nth_error_set_nth_other; [exact Hc0|]. intros <-. congruence.
+    - assert (D' : simD m' s).
+      { eapply simD_mono; try eassumption; lia. }
+      constructor; rewrite ?Eq, ?Ef, ?Et; try apply D'.
+      + rewrite Ec. intros j cj Hcj Hst. destruct (Nat.eq_dec i j) as [<-|Hne].
+        * rewrite nth_error_set_nth_same in Hcj by exact Hi. injection Hcj as <-. cbn [c_id with_id_phase].
+          rewrite mc_sent0. rewrite (sc_next _ _ C). split.
+          -- intros q Hin He. pose proof (req_of_bound _ _ _ _ _ Hw0 (sd_queue _ _ D _ Hin)). lia.
+          -- intros sr Hin He. pose proof (req_of_bound _ _ _ _ _ Hw0 (sd_sent _ _ D _ Hin)). lia.
+        * rewrite nth_error_set_nth_other in Hcj by exact Hne. apply (sd_staged _ _ D' _ _ Hcj Hst).
+      + intros id o Hv. apply D'. apply Ev, Hv.
+  Qed.
+End Blocks.
